@@ -21,6 +21,10 @@
 //!        names, depth up to 5: listing with subtree S equals the full listing filtered by "S or below S", and
 //!        restore with only_subtree = S into an absent and into an empty destination succeeds without any error and
 //!        produces exactly the files below S.  Input {"subtree": "/a/b/c", "dest": "absent"|"empty"}.
+//!        Round 7: the root itself is one of the subtrees (= a full restore), and the tree holds SYMLINKS next to
+//!        siblings whose names merely extend the link's name (`/d/a ->`, `/d/a.b`, `/d/a.target`, `/d/ab/inner`,
+//!        `/d/é ->`, `/d/éclair`, `/a/b/c/link ->`, `/a/b/c/link.d/f`, `/a/b/c/linker`): none of them lies below the
+//!        link, every one must be restored.
 //!  * `hunk_names` (C13, thorough: about 10 s): one backup with max_entries_per_hunk = 1 of more than 10000 entries;
 //!        the files under `b0000/i/` must be exactly `{n/10000:05}/{n:09}` for n = 0..count (doc/format.md), the tail
 //!        must record that count and the listing must return every entry.  Input {"files": n}.
@@ -768,23 +772,29 @@ fn subtree_restore(only: Option<&Value>) -> R {
     let files = [
         "top", "a/f1", "a/b/f2", "a/b/c/f3", "a/b/c/d/f4", "a/b/c/d/e/f5", "a/b/c.x/g", "a/b/cc/g", "a/b-c/h", "a.b/c/i", "ab/c/j",
         "é/f", "é/ü/g", "é/ü/日本/文", "é/ü/日本/深い/ファイル", "é/ü/日本語/k", "éa/ü/l", "x/y/z/w/v/u/deep",
+        // siblings whose names extend the name of a symlink (the links are made below)
+        "d/a.b", "d/a.target", "d/ab/inner", "d/éclair", "d/é.d/deep/f", "d/zz", "dd/other", "a/b/c/link.d/f", "a/b/c/linker", "a/b/c/link-2/g",
     ];
     for f in files {
         put(&src, f, &content(f, 10 + f.len()))?;
     }
     su!(std::fs::create_dir_all(src.join("a/b/c/empty/dir")));
     su!(symlink("../f2", src.join("a/b/c/link")));
+    su!(symlink("a.target", src.join("d/a")));
+    su!(symlink("nowhere", src.join("d/é")));
+    su!(symlink("dd", src.join("d/z")));
     pin_all(&src, 1_600_000_000, 5)?;
     let whole = tree_snapshot(&src);
     let mut dirs: Vec<String> = whole.iter().filter(|(_, v)| v.is_none()).map(|(k, _)| k.clone()).collect();
     dirs.sort_by_key(|d| d.matches('/').count());
+    dirs.insert(0, "/".to_string());
     let rt = su!(tokio::runtime::Runtime::new());
     rt.block_on(async {
         let archive = su!(Archive::create_path(&tmp.path().join("archive")).await);
         su!(conserve::backup(&archive, &src, &BackupOptions { max_entries_per_hunk: 3, ..BackupOptions::default() }, Arc::new(VoidMonitor)).await);
         let full: Vec<String> = entries(&archive, BandSelectionPolicy::Latest, Apath::root(), TestMonitor::arc()).await?.iter().map(|e| e.apath.to_string()).collect();
         for s in &dirs {
-            let below = |p: &str| p == s || (p.starts_with(s.as_str()) && p.as_bytes()[s.len()] == b'/');
+            let below = |p: &str| p == s || s == "/" || (p.starts_with(s.as_str()) && p.as_bytes()[s.len()] == b'/');
             // listing
             if !skip(only, "subtree", &json!(s)) {
                 let want: Vec<String> = full.iter().filter(|p| below(p)).cloned().collect();
@@ -811,7 +821,7 @@ fn subtree_restore(only: Option<&Value>) -> R {
                 let errs = m.take_errors();
                 let got = tree_snapshot(&dest);
                 // exactly: the ancestors of S (as directories), S, and everything below S
-                let want: BTreeMap<String, Option<Vec<u8>>> = whole.iter().filter(|(p, v)| below(p) || (v.is_none() && s.starts_with(p.as_str()) && s.as_bytes()[p.len()] == b'/')).map(|(p, v)| (p.clone(), v.clone())).collect();
+                let want: BTreeMap<String, Option<Vec<u8>>> = whole.iter().filter(|(p, v)| below(p) || (v.is_none() && s.len() > p.len() && s.starts_with(p.as_str()) && s.as_bytes()[p.len()] == b'/')).map(|(p, v)| (p.clone(), v.clone())).collect();
                 if !errs.is_empty() || got != want {
                     return found(K, input, format!("{} error(s){}; {}", errs.len(), errs.first().map(|e| format!(" (first: {e})")).unwrap_or_default(), snapshot_diff(&got, &want).unwrap_or_else(|| "tree as expected".into())),
                         "no error; exactly the entries at or below the subtree (inside its otherwise empty ancestors)", "restoring only a subtree fails or restores something else than that subtree");
